@@ -96,6 +96,48 @@ func tsCanon(ts string, inputs map[string]bool) string {
 	return "n:" + n.String()
 }
 
+// viaMain: the same log through the collector binary's own reporting path (flags -> reportMetrics -> DB manager); what the
+// DB manager received is what is compared with the model.  Names or filters containing the flag separator ';' cannot be
+// passed on the command line and stay on the direct path.
+func viaMain(impl *string, tags *[]string, file string, metrics, filters []string, format string, show func([3]string) string) {
+	for _, x := range append(append([]string{}, metrics...), filters...) {
+		if strings.Contains(x, ";") || x == "" {
+			*tags = append(*tags, "not-expressible-on-the-command-line")
+			return
+		}
+	}
+	resp := fmcCall(fmcReq{Path: file, Metrics: strings.Join(metrics, ";"), Filters: strings.Join(filters, ";"), Format: format, Trial: "trial-x"})
+	if resp == nil {
+		*tags = append(*tags, "collector-helper-missing")
+		return
+	}
+	var h string
+	switch {
+	case resp.Panic != "":
+		h = "panic"
+	case resp.Fatal:
+		h = "err"
+	case !resp.Reported:
+		h = "nothing-reported"
+	case resp.Trial != "trial-x":
+		h = "reported-under-another-trial-name"
+	case resp.NilLog || resp.NilEntry:
+		h = "reported-a-nil-entry"
+	default:
+		out := []string{}
+		for _, l := range resp.Logs {
+			out = append(out, show(l))
+		}
+		h = "ok " + strings.Join(out, " ")
+	}
+	h = strings.Join(strings.Fields(h), " ")
+	*tags = append(*tags, "via-collector-main")
+	if h != strings.Join(strings.Fields(*impl), " ") {
+		*tags = append(*tags, "main-differs-from-package")
+	}
+	*impl = h
+}
+
 func init() {
 	dir, _ := os.MkdirTemp("", "kvh-c13-")
 	runners["C13"] = func(rng *rand.Rand, tier string, k int) Case {
@@ -179,6 +221,9 @@ func init() {
 				}
 				impl = "ok " + strings.Join(out, " ")
 			}()
+			viaMain(&impl, &tags, file, metrics, filters, "TEXT", func(l [3]string) string {
+				return fmt.Sprintf("t:%s/%s/%s", hx(l[0]), hx(l[1]), hx(l[2]))
+			})
 		} else {
 			// ---- JSON lines
 			nl := rng.Intn(7)
@@ -300,6 +345,9 @@ func init() {
 				}
 				impl = "ok " + strings.Join(out, " ")
 			}()
+			viaMain(&impl, &tags, file, metrics, nil, "JSON", func(l [3]string) string {
+				return fmt.Sprintf("%s/%s/%s", tsCanon(l[0], inputs), hx(l[1]), hx(l[2]))
+			})
 		}
 		os.Remove(file)
 		return Case{Ops: []string{strings.Join(strings.Fields(op), " ")}, Impl: []string{strings.Join(strings.Fields(impl), " ")}, Tags: tags, Trivial: nm == 0}
